@@ -259,7 +259,7 @@ pub fn stalled(rank: u64, secs: u64) -> ! {
 /// created, which is what the precondition check reports.
 pub fn aborted(rank: Option<u64>) -> ! {
     match rank {
-        Some(r) => end_run_at(r, "process-abort", "aborted the process (non-unwinding panic: an unsafe precondition such as from_utf8_unchecked on ill-formed bytes was violated, or abort() was called)", &["C03", "C17"], "an abort while parsing is a violation of C03 and, for unchecked UTF-8 conversions, of C17 — run ./check C03 / ./check C17"),
+        Some(r) => end_run_at(r, "process-abort", "aborted the process (non-unwinding panic: an unsafe precondition such as from_utf8_unchecked on ill-formed bytes was violated, a memory allocation failed under the address-space limit because something grows without bound, the stack overflowed, or abort() was called)", &["C03", "C17"], "an abort while parsing is a violation of C03 and, for unchecked UTF-8 conversions, of C17 — run ./check C03 / ./check C17"),
         None => {
             eprintln!("MACHINERY: the process aborted outside a worker thread");
             unsafe { _exit(2) }
